@@ -73,10 +73,10 @@ func rulePsyncWire(w *core.World, r *core.Report) {
 		}
 		core.EnumPaths(f.Blocks[0], 0, 10000, func(p *core.Path) {
 			ret, ok := p.End.(*ssa.Return)
-			if !ok || len(ret.Results) != 4 || !core.IsNilConst(p.Resolve(ret.Results[3])) {
+			if !ok || len(ret.Results) != 4 || !pathNil(p, ret.Results[3]) {
 				return
 			}
-			waiterNil := core.IsNilConst(p.Resolve(ret.Results[2]))
+			waiterNil := pathNil(p, ret.Results[2])
 			ro := p.Resolve(ret.Results[1])
 			if waiterNil {
 				nCont++
@@ -108,7 +108,7 @@ func rulePsyncWire(w *core.World, r *core.Report) {
 		isWaiter := isResultOf("(*pkg/redis.StandaloneRedis).SendPSync", 2)
 		core.EnumPathsN(g.Blocks[0], 0, 10000, core.Unroll, func(p *core.Path) {
 			ret, ok := p.End.(*ssa.Return)
-			if !ok || len(ret.Results) != 4 || !core.IsNilConst(p.Resolve(ret.Results[3])) {
+			if !ok || len(ret.Results) != 4 || !pathNil(p, ret.Results[3]) {
 				return
 			}
 			n++
@@ -514,10 +514,15 @@ func ruleMetaPlumbing(w *core.World, r *core.Report) {
 }
 
 // pathNil: the value is nil on this path (a nil constant, or tested == nil on the path).
+// pathNil: v is nil on this path (a nil constant, or decided by a branch or by
+// the split of an undecided error return).
 func pathNil(p *core.Path, v ssa.Value) bool {
 	rv := p.Resolve(v)
 	if core.IsNilConst(rv) {
 		return true
+	}
+	if n, known := p.IsNil(rv); known {
+		return n
 	}
 	return p.Holds(token.EQL, func(x ssa.Value) bool { return x == rv }, core.IsNilConst)
 }
